@@ -825,3 +825,85 @@ Proof.
       rewrite elem_remove_ok by lia. cbn [option_map].
       apply refines1_of_option. apply add_lrel; auto.
 Qed.
+
+(* ---------------------------------------------------------------------- *)
+(* The add-like operations never resolve their last token: when the parent is not an array the
+   last part may be anything (a key-like '#name' / '~name', a negative number, ...). *)
+
+Lemma std_pointer_std_parent p : std_pointer p -> std_parent p.
+Proof.
+  intros [Hn Ho]. split; auto. unfold parent_outside_extensions, outside_extensions in *.
+  apply forallb_forall. intros t Hin. rewrite forallb_forall in Ho. apply Ho.
+  generalize Hin. generalize (tokens p). clear. intros ts.
+  induction ts as [|a ts IH]; [contradiction|]. destruct ts as [|b ts]; [contradiction|].
+  intros [<-|Hin]; [left; reflexivity|right; apply IH; exact Hin].
+Qed.
+
+Lemma std_parent_snoc p x : std_parent (p ++ [x]) -> std_pointer p.
+Proof.
+  intros [Hn Ho]. apply Forall_app in Hn as [Hp _]. split; auto.
+  unfold parent_outside_extensions in Ho. rewrite tokens_snoc, removelast_last in Ho. exact Ho.
+Qed.
+
+Lemma getitem_obj_cases l ms x :
+  (exists r, getitem (RNode l (JObj ms)) x = Ok r) \/
+  getitem (RNode l (JObj ms)) x = Err (EPointer KPtrKey).
+Proof.
+  unfold getitem. cbn [rv_json]. destruct x as [z|k].
+  - destruct (lookup (str_of_Z z) ms); eauto.
+  - destruct (lookup k ms); eauto. destruct k as [|c rest]; auto.
+    destruct ((N.eqb c ch_tilde || N.eqb c ch_hash) &&
+              match lookup rest ms with Some _ => true | None => false end); eauto.
+Qed.
+
+Lemma lastres_obj l ms x :
+  exists o, lastres (RNode l (JObj ms)) x = Ok (Some (RNode l (JObj ms)), o).
+Proof.
+  unfold lastres. destruct (getitem_obj_cases l ms x) as [[r ->]| ->]; eauto.
+Qed.
+
+Lemma lastres_scalar l pv x :
+  is_container pv = false -> lastres (RNode l pv) x = Err (EPointer KPtrType).
+Proof. intros H. unfold lastres, getitem. destruct pv; try discriminate H; reflexivity. Qed.
+
+Definition eval_not_array (ts : list ustr) (d : json) : Prop :=
+  forall l xs, rfc_eval_from [] d ts <> Some (l, JArr xs).
+
+Lemma parent_not_array_eval ts t d : parent_not_array (ts ++ [t]) d -> eval_not_array ts d.
+Proof.
+  unfold parent_not_array, eval_not_array, rfc_get, rfc_eval. rewrite removelast_last.
+  intros H l xs E. apply (H xs). rewrite E. reflexivity.
+Qed.
+
+Lemma apply_add_snoc_noarr kind p x v d :
+  std_pointer p -> eval_not_array (tokens p) d ->
+  lrel (apply_add kind (p ++ [x]) v d)
+    (match rfc_eval_from [] d (tokens p) with
+     | Some (l, pv) => option_map (set_at d l) (local_add kind (part_text x) v pv)
+     | None => None
+     end).
+Proof.
+  intros Hp Hna. unfold apply_add. rewrite resolve_parent_snoc.
+  pose proof (reduce_std p Hp [] d) as H.
+  destruct (rfc_eval_from [] d (tokens p)) as [[l pv]|] eqn:Ev.
+  2:{ destruct H as [k H]. rewrite H. cbn [bind]. apply lrel_err. exact I. }
+  rewrite H. cbn [bind]. destruct pv as [| b | n | s | xs | ms].
+  5:{ exfalso. exact (Hna l xs Ev). }
+  5:{ destruct (lastres_obj l ms x) as [o ->]. cbn [bind]. rewrite last_part_snoc. cbn [bind].
+      apply with_parent_lrel. unfold member_name. rewrite dict_set_member_set.
+      destruct kind; reflexivity. }
+  all: rewrite lastres_scalar by reflexivity; cbn [bind]; destruct kind; apply lrel_err; exact I.
+Qed.
+
+Lemma add_lrel_parent p v d :
+  std_parent p -> parent_not_array (tokens p) d ->
+  lrel (apply_add AddStd p v d) (rfc_add (tokens p) v d).
+Proof.
+  intros Hp Hna. destruct (snoc_case p) as [->|[p' [x ->]]].
+  - reflexivity.
+  - rewrite tokens_snoc in *.
+    pose proof (descent _ (rfc_add_descends v) (tokens p') (part_text x) d) as E.
+    cbv beta in E. rewrite E. apply (apply_add_snoc_noarr AddStd).
+    + eapply std_parent_snoc; eauto.
+    + eapply parent_not_array_eval; eauto.
+Qed.
